@@ -979,11 +979,6 @@ def r073(P, rep):
 
 
 # ------------------------------------------------------------------ R07.7 ---
-def _fn_of(n):
-    f = n.enclosing('FunctionDecl')
-    return f.name if f is not None else '?'
-
-
 def r077(F, P, rep):
     rep.rule('R07.7', 'between the folder and each consumer no intermediate object is narrower than the sink: a folded value stored in a narrow local '
                       'is not widened again, const_expr returns the folder\'s value unchanged, and bit-field masks of static initializers are computed in 64 bits', floor=10)
@@ -1143,20 +1138,6 @@ def _stored_local(castnode):
                     if d.kind == 'VarDecl' and d.id == l.ref_id:
                         return d
     return None
-
-
-def _is_store_or_arg(q):
-    """the widened value q is stored (field, pointee, element, variable), passed or returned"""
-    p = q.parent
-    while p is not None and p.kind == 'ParenExpr':
-        p = p.parent
-    if p is None:
-        return False
-    if p.kind == 'BinaryOperator' and p.opcode == '=' and len(p.inner) == 2 and p.inner[1].strip_all() is q.strip_all():
-        return True
-    if p.kind in ('VarDecl', 'CallExpr', 'ReturnStmt'):
-        return True
-    return False
 
 
 def _dest_name(q):
